@@ -1,5 +1,5 @@
 (* C19 — scheduler state reports are consistent with each other and with reality. *)
-From CffVerif Require Import SchedModel SchedLemmas SchedInv SchedProps.
+From CffVerif Require Import SchedModel SchedLemmas SchedInv SchedInv2 SchedProps SchedInv3 SchedInv4 SchedTheorems.
 
 (* Every report ever emitted, in every run (any DAG, N >= 1, both modes, any
    interleaving, any instant at which the ticker fires), for the current code
@@ -16,6 +16,16 @@ Theorem C19_reports :
                i = Z.of_nat (cN c) - x /\ cc = Z.of_nat (cN c) /\ 0 <= i)%Z.
 Proof. intros c acts s p r w i cc _ G Hr Hin. exact (ticks_ok c acts s p r w i cc G Hr Hin). Qed.
 Print Assumptions C19_reports.
+
+(* The remaining clauses: Waiting is non-negative, Pending never exceeds the number of
+   jobs submitted so far, Waiting never exceeds the number of submitted jobs that have
+   dependencies (for both variants of the dispatch guard). *)
+Theorem C19_bounds :
+  forall c acts s post pre p r w i cc,
+    wf_cfg c -> run c (init c) acts = Some s -> log s = post ++ EvTick p r w i cc :: pre ->
+    (0 <= w /\ p <= Z.of_nat (nsent pre) /\ w <= Z.of_nat (nsentd c pre))%Z.
+Proof. intros c acts s post pre p r w i cc W. exact (report_bounds c W acts s post pre p r w i cc). Qed.
+Print Assumptions C19_bounds.
 
 (* Reports stop once the loop has finished (Wait returns through finishedc only after that). *)
 Theorem C19_stop :
